@@ -199,10 +199,11 @@ def abstract_state(s):
     return (tuple(live), dead)
 
 
-def cover(cfg, depth):
+def cover(cfg, depth, maxacq):
     """Breadth-first exploration of the real object with hashing on abstract_state: for every observed state
     reachable within `depth` calls, one history reaching it (the first found) is extended by every applicable
-    call (cancel of a finished acquisition is tried for one representative).  Each extension is a recorded
+    call (cancel of a finished acquisition is tried for one representative; at most `maxacq` acquire/run calls
+    per history, as in the TLC run's MaxAcq).  Each extension is a recorded
     execution; together they contain every (state, call) pair up to that depth, modulo the abstraction."""
     out = []
     seen = {abstract_state(Sys(cfg)): []}
@@ -216,6 +217,8 @@ def cover(cfg, depth):
             ops = s0.applicable()
             deadseen = False
             for op in ops:
+                if op[0] in ("acquire", "run") and len(s0.acq) >= maxacq:
+                    continue
                 if op[0] == "cancel" and op[1] in s0.ended:
                     if deadseen:
                         continue
@@ -368,7 +371,19 @@ def run(ctx):
     ctx.exhaustive = True
     ctx.extra["exhaustive_depth"] = depth
     ctx.extra["exhaustive_histories"] = nex
-    nrand = ctx.pick(2500, 80000)
+    # exploration of the real objects with state hashing (see cover()): closed under every applicable call
+    # for histories with at most maxacq acquisitions
+    maxacq = ctx.pick(4, 6)
+    ncov = nstates = 0
+    for cfg in CONFIGS:
+        c, ns = cover(cfg, 3 * maxacq, maxacq)
+        traces += c
+        ncov += len(c)
+        nstates += ns
+    ctx.extra["cover_max_acquisitions"] = maxacq
+    ctx.extra["cover_observed_states"] = nstates
+    ctx.extra["cover_state_call_pairs"] = ncov
+    nrand = ctx.pick(2000, 60000)
     for i in range(nrand):
         cfg = ctx.rng.choice(CONFIGS + [dict(limit=5, lock=False)])
         traces.append(random_history(ctx.rng, cfg, ctx.rng.randint(8, 40)))
@@ -396,8 +411,8 @@ def run(ctx):
     ctx.extra["spec_behaviours_replayed"] = len(behs)
     ctx.extra["spec_behaviours_not_reproduced"] = drift   # each of these is also rejected by TLC below
     ctx.note_traces(traces)
-    ctx.log("recorded %d real executions (%d exhaustive depth %d, %d random, %d from TLC behaviours)" % (
-        len(traces), nex, depth, nrand, len(behs)))
+    ctx.log("recorded %d real executions (%d exhaustive depth %d, %d state/call pairs over %d observed states, %d random, %d from TLC behaviours)" % (
+        len(traces), nex, depth, ncov, nstates, nrand, len(behs)))
     rej = ctx.validate("LockSemTrace", traces, shard_size=ctx.pick(3000, 6000))
     report(ctx, traces, rej, "run")
     bad = {x.idx for x in rej}
